@@ -283,6 +283,22 @@ pub enum Caught<T> {
     Msg(String),
 }
 
+/// `fresh` = 1: builds a mock with an unmet expectation during the unwind and drops it; 2: also a clone, original dropped first
+struct FreshOnDrop(u8);
+impl Drop for FreshOnDrop {
+    fn drop(&mut self) {
+        if self.0 == 0 { return; }
+        let u = Unimock::new(crate::universe::U1Mock::b.some_call(matching!(_)).returns(1i64));
+        if self.0 == 2 {
+            let c = u.clone();
+            drop(u);
+            drop(c);
+        } else {
+            drop(u);
+        }
+    }
+}
+
 pub fn catch<T>(f: impl FnOnce() -> T) -> Caught<T> {
     match catch_unwind(AssertUnwindSafe(f)) {
         Ok(v) => Caught::Ok(v),
@@ -427,7 +443,7 @@ pub fn exec_event(w: &mut WorldRt, ev: &Event) -> String {
                 Caught::Msg(m) => format!("teardown\tpanic\t{}", esc(&m)),
             }
         }
-        Event::UnwindCall { i, mid, a, also, wrap, .. } => {
+        Event::UnwindCall { i, mid, a, also, wrap, fresh, .. } => {
             let Some(u) = w.insts.remove(i) else { return "bad-event".into() };
             let mut others = vec![];
             for j in also {
@@ -436,9 +452,11 @@ pub fn exec_event(w: &mut WorldRt, ev: &Event) -> String {
                 }
             }
             let _ = take_log();
-            let (mid, a, wrap) = (*mid, *a, *wrap);
+            let (mid, a, wrap, fresh) = (*mid, *a, *wrap, *fresh);
             // everything below is dropped while the thread unwinds from the panic raised inside
             let r = catch(move || {
+                // dropped first while unwinding: a fixture whose cleanup builds (and drops) a mock of its own
+                let _fixture = FreshOnDrop(fresh);
                 let _others = others;
                 // the holders stay alive until the panic below unwinds through this frame
                 let boxed: Option<Box<Unimock>>;
